@@ -6,6 +6,7 @@ from ..absint import AList, AObj, Interp, Unknown
 from ..astutil import calls_in, call_name, dotted, get_kwarg, norm, try_fold, walk_no_nested
 from ..cfg import cfg_of
 from ..core import AnalysisError
+from .c03 import eval_with
 from ..exprnorm import EQ, GT, LT, comparison
 from ..tables import enum_of
 
@@ -142,6 +143,9 @@ def run(repo, rep):
     rule_parse_guarded(repo, rep)
     rep.clause("C18-m", "Sram-only modes: the port relabelled OnChipFlash is the port the constants are moved to")
     rep.clause("C18-n", "numbers are converted by their own type (no float detour that truncates integer options)")
+    rep.clause("C18-p", "the port names the reader admits for axi0_port / axi1_port are the names OPTIONS.md documents (the admitted collection is resolved to enum members)")
+    rep.clause("C18-q", "each selection chain (section found / built-in default / no file / unknown section) tests and reports the selection its section name was built from")
+    rule_round9(repo, rep)
     rep.clause("C18-o", "bundled system configurations: clock x port width x clock scale equals the bandwidth documented above the section")
     rule_round8(repo, rep)
 
@@ -935,6 +939,11 @@ def rule_round8(repo, rep):
     ini = _os.path.join(repo.root, "ethosu", "config_files", "Arm", "vela.ini")
     lines = open(ini).read().splitlines()
     k = 0
+    init = af.func("ArchitectureFeatures.__init__")
+    bpcs = [a.value for a in ast.walk(init) if isinstance(a, ast.Assign) and str(norm(a.targets[0])) == "self.memory_bandwidths_per_cycle"]
+    if len(bpcs) != 1:
+        raise AnalysisError(f"ArchitectureFeatures.__init__: {len(bpcs)} assignments of memory_bandwidths_per_cycle")
+    bpc_expr = bpcs[0]
     for idx, ln in enumerate(lines):
         mm = _re.fullmatch(r"\[System_Config\.(Ethos_U(55|65)\w*)\]", ln.strip())
         if not mm:
@@ -954,8 +963,94 @@ def rule_round8(repo, rep):
             if key not in vals or "core_clock" not in vals:
                 continue
             k += 1
-            got = float(vals["core_clock"]) * width * float(vals[key]) / 1e9
+            # bytes per cycle as the code derives them: the source expression of `self.memory_bandwidths_per_cycle`, folded for this row
+            bpc = eval_with(bpc_expr, {"axi_port_data_width": width * 8, "self.memory_clock_scales": float(vals[key])})
+            if bpc is None:
+                raise AnalysisError(f"architecture_features: `{norm(bpc_expr)}` not foldable")
+            got = float(vals["core_clock"]) * bpc / 1e9
             rep.check(abs(got - float(gbs)) <= 0.011 * max(1.0, float(gbs)), "C18-o", f"ethosu/config_files/Arm/vela.ini:[System_Config.{mm.group(1)}]", f"{key}: {vals['core_clock']} Hz x {width} B x {vals[key]} = the documented {gbs} GB/s",
                       f"{key}={vals[key]} gives {got:.3f} GB/s, the section is documented as {name} ({gbs} GB/s)")
     if k < 8:
         raise AnalysisError(f"vela.ini: {k} documented bandwidths found")
+
+
+def rule_round9(repo, rep):
+    """(p) `_read_port` admits the names of a collection of MemArea members; the collection (a tuple of members, or a call of a static
+    method of the enum whose body returns such a tuple) is resolved to member names and compared with the set OPTIONS.md documents for
+    `axi0_port` / `axi1_port`. (q) `_get_vela_config` has two parallel chains; the section name of each is `"<Kind>." + self.<sel>`. In the
+    chain whose first test looks that section up, the built-in-default test compares `self.<sel>` and the error of the last branch reports
+    `self.<sel>` - not the selection of the sibling chain."""
+    import os as _os
+    import re as _re
+
+    af = repo.mod("architecture_features")
+    f = af.func("ArchitectureFeatures._read_port")
+    site = "ethosu/vela/architecture_features.py:ArchitectureFeatures._read_port"
+    if f is None:
+        raise AnalysisError("architecture_features: _read_port not found")
+    comps = [c for c in ast.walk(f) if isinstance(c, (ast.ListComp, ast.SetComp, ast.GeneratorExp)) and str(norm(c.elt)).endswith(".name")]
+    if len(comps) != 1:
+        raise AnalysisError(f"_read_port: the collection of admitted names was not found ({len(comps)})")
+    src = comps[0].generators[0].iter
+
+    def members(e):
+        if isinstance(e, (ast.Tuple, ast.List, ast.Set)):
+            out = []
+            for x in e.elts:
+                if isinstance(x, ast.Attribute) and isinstance(x.value, ast.Name):
+                    out.append(x.attr)
+                else:
+                    return None
+            return out
+        if isinstance(e, ast.Call) and isinstance(e.func, ast.Attribute) and isinstance(e.func.value, ast.Name) and not e.args:
+            for m in repo.core_modules():
+                for cls in [c for c in ast.walk(m.tree) if isinstance(c, ast.ClassDef) and c.name == e.func.value.id]:
+                    for fn in cls.body:
+                        if isinstance(fn, ast.FunctionDef) and fn.name == e.func.attr:
+                            rets = [r for r in ast.walk(fn) if isinstance(r, ast.Return) and r.value is not None]
+                            if len(rets) == 1:
+                                return members(rets[0].value)
+        if isinstance(e, ast.Name) and e.id in ("MemArea",):
+            return None
+        return None
+
+    got = members(src)
+    if got is None:
+        raise AnalysisError(f"_read_port: `{norm(src)}` not resolvable to enum members")
+    doc = open(_os.path.join(repo.root, "OPTIONS.md")).read()
+    docsets = _re.findall(r"^axi[01]_port=\?\?\?.*\?\?\? = \{([^}]*)\}", doc, _re.M)
+    if len(docsets) != 2:
+        raise AnalysisError(f"OPTIONS.md: {len(docsets)} axi port lines found")
+    for ds in docsets:
+        want = set(_re.split(r",\s*|\s+or\s+", ds.strip()))
+        rep.check(set(got) == want, "C18-p", site, f"admitted port names {sorted(got)} = documented {sorted(want)}",
+                  f"`{norm(src)}` admits {sorted(set(got) - want)} beyond the documented set: an illegal memory-area mapping (axi1_port=Shram on the unused port of an Sram-only mode) compiles with status 0")
+    g = af.func("ArchitectureFeatures._get_vela_config")
+    gsite = "ethosu/vela/architecture_features.py:ArchitectureFeatures._get_vela_config"
+    secs = {}
+    for a in ast.walk(g):
+        if isinstance(a, ast.Assign) and isinstance(a.targets[0], ast.Name) and isinstance(a.value, ast.BinOp) and isinstance(a.value.op, ast.Add) and isinstance(a.value.left, ast.Constant) \
+                and isinstance(a.value.left.value, str) and isinstance(a.value.right, ast.Attribute):
+            secs[a.targets[0].id] = str(norm(a.value.right))
+    n = 0
+    for i in ast.walk(g):
+        if not isinstance(i, ast.If):
+            continue
+        hs = [c for c in ast.walk(i.test) if isinstance(c, ast.Call) and (call_name(c) or "").endswith("has_section") and c.args and isinstance(c.args[0], ast.Name) and c.args[0].id in secs]
+        if not hs:
+            continue
+        sel = secs[hs[0].args[0].id]
+        cur = i
+        while len(cur.orelse) == 1 and isinstance(cur.orelse[0], ast.If):
+            cur = cur.orelse[0]
+            for cmp_ in [c for c in ast.walk(cur.test) if isinstance(c, ast.Compare) and "DEFAULT_CONFIG" in str(norm(c))]:
+                n += 1
+                rep.check(str(norm(cmp_.left)) == sel or any(str(norm(x)) == sel for x in cmp_.comparators), "C18-q", gsite, f"the built-in default of the `{hs[0].args[0].id}` chain is taken when `{sel}` is the default selection",
+                          f"`{norm(cmp_)}` in the chain of `{sel}`: with the sibling selection left at its default an unknown `{sel.split('.')[-1]}` name is silently replaced by the built-in one (exit 0), "
+                          "and a valid named sibling makes the default selection an error")
+        for r in [x for st in cur.orelse for x in ast.walk(st) if isinstance(x, ast.Raise)]:
+            if isinstance(r.exc, ast.Call) and len(r.exc.args) >= 2:
+                n += 1
+                rep.check(str(norm(r.exc.args[1])) == sel, "C18-q", gsite, f"the unknown-section error of the `{hs[0].args[0].id}` chain reports `{sel}`", f"`{norm(r.exc)}` reports another selection")
+    if n < 4:
+        raise AnalysisError(f"_get_vela_config: {n} chain tests found")
